@@ -131,9 +131,10 @@ def accumulate_wrenches(contact_surface, rigid_body1, rigid_body2):
 @numba.njit(cache=True)
 def _transform_wrenches(
         mesh22origin, total_force_21, total_torque_12, total_torque_21):
-    wrench21 = np.hstack((total_force_21, total_torque_21))
-    wrench12 = np.hstack((-total_force_21, total_torque_12))
-    mesh22origin_adjoint = adjoint_from_transform(mesh22origin)
-    wrench21_in_world = mesh22origin_adjoint.T.dot(wrench21)
-    wrench12_in_world = mesh22origin_adjoint.T.dot(wrench12)
+    # Forces and torques are expressed in the frame of rigid body 2 and the
+    # torques refer to the centers of mass, so the change to world coordinates
+    # only rotates them.
+    R = np.ascontiguousarray(mesh22origin[:3, :3])
+    wrench21_in_world = np.hstack((R.dot(total_force_21), R.dot(total_torque_21)))
+    wrench12_in_world = np.hstack((R.dot(-total_force_21), R.dot(total_torque_12)))
     return wrench12_in_world, wrench21_in_world
